@@ -384,7 +384,15 @@ func checkWellKnown(c *fw.Ctx) {
 	requireOnSuccess(c, rule, "LookupWellKnown", fn, []need{
 		nd("the request was sent", true, ".Do(", "#1 == nil)"),
 		nd("status 200", true, ".StatusCode == 200)"),
-		nd("the body was read", true, "io.ReadAll(", "#1 == nil)"),
+		// (any of the library's whole-stream readers, with its error tested)
+		{what: "the body was read", alts: []lit{
+			{[]string{"io.ReadAll(", "#1 == nil)"}, true},
+			{[]string{"(*bytes.Buffer).ReadFrom(", "#1 == nil)"}, true},
+			{[]string{"io.Copy(", "#1 == nil)"}, true},
+			{[]string{"io.CopyN(", "#1 == nil)"}, true},
+			{[]string{"io.ReadFull(", "#1 == nil)"}, true},
+			{[]string{"io.ReadAtLeast(", "#1 == nil)"}, true},
+		}},
 		nd("the body is JSON", true, "encoding/json.Unmarshal(", " == nil)"),
 		nd("m.server is present", false, `.NewAddress == "")`),
 	}, 1)
@@ -409,10 +417,14 @@ func checkWellKnown(c *fw.Ctx) {
 		}
 	}
 	c.Expect(okLimit, rule, "the body is read through a LimitedReader of WellKnownMaxSize", c.P.Pos(fn.Pos()), "", "no io.LimitedReader{N: WellKnownMaxSize} / io.LimitReader(_, WellKnownMaxSize) was recognised (the rule below reports a read of the raw body)")
-	for _, dc := range deepCallsTo(fn, fw.NameIs("io.ReadAll")) {
+	readerArg := map[string]int{"io.ReadAll": 0, "(*bytes.Buffer).ReadFrom": 1, "io.Copy": 1, "io.CopyN": 1, "io.ReadFull": 0, "io.ReadAtLeast": 0}
+	for _, dc := range deepCallsTo(fn, func(n string) bool { _, ok := readerArg[n]; return ok }) {
 		call := dc.Call
-		s := fw.Sig(call.Common().Args[0])
-		s = fw.SigIn(dc.Fr, call.Common().Args[0])
+		ai := readerArg[fw.CalleeName(call)]
+		if ai >= len(call.Common().Args) {
+			continue
+		}
+		s := fw.SigIn(dc.Fr, call.Common().Args[ai])
 		judge3(c, rule, "only the limited reader is read", c.P.Pos(call.Pos()), "ReadAll on "+s,
 			strings.Contains(s, "io.LimitedReader") || (strings.HasPrefix(s, "io.LimitReader(") && strings.HasSuffix(s, ",51200)")),
 			strings.HasSuffix(s, ".Body") && !strings.Contains(s, "Limit"))
@@ -474,6 +486,7 @@ func checkConnectors(c *fw.Ctx) {
 	type site struct {
 		typ, fn, pos string
 		fields       map[string]string
+		global       string // the package-level variable the literal initialises, if any
 	}
 	var sites []site
 	for _, f := range pkg.Syntax {
@@ -510,6 +523,13 @@ func checkConnectors(c *fw.Ctx) {
 					return true
 				}
 				s := site{typ: ts, fn: fd.Name.Name, pos: c.P.Pos(cl.Pos()), fields: map[string]string{}}
+				if gd, isGen := body.(*ast.GenDecl); isGen {
+					for _, sp := range gd.Specs {
+						if vs, isV := sp.(*ast.ValueSpec); isV && len(vs.Names) == 1 && vs.Pos() <= cl.Pos() && cl.End() <= vs.End() {
+							s.global = vs.Names[0].Name
+						}
+					}
+				}
 				for _, el := range cl.Elts {
 					if kv, ok := el.(*ast.KeyValueExpr); ok {
 						if id, ok := kv.Key.(*ast.Ident); ok {
@@ -573,6 +593,34 @@ func checkConnectors(c *fw.Ctx) {
 		return name
 	}
 	for _, s := range sites {
+		if s.typ == "net/http.Client" && s.global != "" {
+			// a client kept in a package-level variable belongs to the one routine that uses it
+			users := map[string]bool{}
+			for _, f := range c.P.SrcFuncs() {
+				if f.Pkg == nil || f.Pkg.Pkg.Path() != fw.ModPath+"/fclient" || f.Name() == "init" {
+					continue
+				}
+				for _, b := range f.Blocks {
+					for _, ins := range b.Instrs {
+						var ops []*ssa.Value
+						for _, o := range ins.Operands(ops) {
+							if g, isG := (*o).(*ssa.Global); isG && g.Name() == s.global {
+								root := f
+								for root.Parent() != nil {
+									root = root.Parent()
+								}
+								users[root.Name()] = true
+							}
+						}
+					}
+				}
+			}
+			if len(users) == 1 {
+				for u := range users {
+					s.fn = u
+				}
+			}
+		}
 		if s.typ == "net/http.Client" {
 			s.fn = ownerOf(s.fn) // (dialers and transports are judged by the constructor they sit in)
 		}
@@ -778,6 +826,9 @@ func checkNetworkControl(c *fw.Ctx) {
 					c.Ok(rule, construct, c.P.Pos(fw.InstrPos(r.Ret)), "")
 				case opaqueTerm(term) != "":
 					c.Undecided(rule, construct, "true is returned under "+opaqueTerm(term)+", which the rule cannot see into")
+				case termHas(term, lit{[]string{"(*net.IPNet).Contains("}, true}):
+					// the library predicate, on a network that was parsed somewhere else
+					c.Undecided(rule, construct, "net.IPNet.Contains decides, on a network that is not parsed in this routine")
 				default:
 					c.Fail(rule, construct, c.P.Pos(fw.InstrPos(r.Ret)), "true is returned without (*net.IPNet).Contains(parsed CIDR, ip): "+fw.DNF{term}.String()+" (other containment predicates treat IPv4-mapped IPv6 ranges differently)")
 				}
